@@ -515,10 +515,10 @@ func TestCheck(t *testing.T) {
 		}
 	}
 	if env.Thorough() {
-		deep := rep.Add(&report.Section{Name: "generated-pre-states-depth3", Engine: "fsx", Exhaustive: true, Extra: map[string]int64{},
-			Rule: "every database state reachable within three operations × every operation that changes it: all crash variants and all single faults (as in the first two sections); non-trivial = crash variants recovering to the post state + fault runs in which the call failed"})
+		deep := rep.Add(&report.Section{Name: "generated-pre-states-depth4", Engine: "fsx", Exhaustive: true, Extra: map[string]int64{},
+			Rule: "every database state reachable within four operations × every operation that changes it: all crash variants and all single faults (as in the first two sections); non-trivial = crash variants recovering to the post state + fault runs in which the call failed"})
 		c = &ctx{rep: rep, sec: deep, base: base}
-		for _, p := range genPres(3) {
+		for _, p := range genPres(4) {
 			if env.Expired() {
 				deep.Exhaustive = false
 				break
